@@ -74,6 +74,11 @@ func (w *World) Close() {
 	if w == nil || w.Root == "" {
 		return
 	}
+	if os.Getenv("VERIF_KEEP_WORLD") != "" {
+		// Debugging aid: leave the run directory behind (the caller cleans up).
+		fmt.Fprintf(os.Stderr, "kept world %s\n", w.Root)
+		return
+	}
 	// Module cache style read-only dirs do not occur, but be safe.
 	filepath.WalkDir(w.Root, func(p string, d fs.DirEntry, err error) error {
 		if err == nil && d.IsDir() {
